@@ -33,6 +33,7 @@ def run(tier, seed, replay=None):
     perm_cases, perm_want, n_sched, n_perm_coq = [], [], 0, 0
     qtt_cases, qtt_want, n_qtt_coq = [], [], 0
     n_sched_blind = 0
+    op_cases, op_want, n_op_coq = [], [], 0
     for i in range(n):
         kind = rng.choice(["reshape", "reshape", "reshape-op", "permute", "permute", "permute-op", "qtt", "qtt-roundtrip"])
         if i < 14: kind = "reshape"            # the engineered reshape cases below
@@ -79,6 +80,10 @@ def run(tier, seed, replay=None):
                 snap = history.Snap(x)
                 y = torchtt.reshape(x, [(m, n_) for m, n_ in zip(Mout, Nout_)], eps)
                 ref = x.full().reshape(total, tot2).reshape(Mout + Nout_); got_shape, want_shape = history.Mof(y) + [int(v) for v in y.N], Mout + Nout_
+                if len(op_cases) < (60 if tier == "quick" else 600):
+                    pl = lambda Ms, Ns: "[" + ";".join("(%d%%nat,%d%%nat)" % (a_, b_) for a_, b_ in zip(Ms, Ns)) + "]"
+                    op_cases.append("match reshape_modes4 %s %s with Some l => flat_map (fun p => [fst p; snd p]) l | None => [] end" % (pl(Min, Nin_), pl(Mout, Nout_)))
+                    op_want.append(([v_ for pr in zip(history.Mof(y), [int(v) for v in y.N]) for v_ in pr], desc))
             elif kind in ("permute", "permute-op"):
                 d = rng.choice([2, 3, 3, 4, 5])
                 N = [rng.choice([1, 2, 3, 4]) for _ in range(d)]
@@ -171,6 +176,11 @@ def run(tier, seed, replay=None):
             if got != want:
                 V.fail("correspondence(model/impl): final mode order and sequence of swapped bonds of permute differ from the Coq schedule", dict(dsc, model=got, impl=want), failing_input=False)
             else: n_perm_coq += 1
+    if ok_make and op_cases:
+        res = coqrun.eval_nat_lists("C10_o", "From TT Require Import Reshape.", "", op_cases, shard=100)
+        for got, (want, dsc) in zip(res, op_want):
+            if got != want: V.fail("correspondence(model/impl) mode pairs produced by the operator reshape loop", dict(dsc, model=got, impl=want), failing_input=False)
+            else: n_op_coq += 1
     # to_qtt on shapes with modes 1, 2, 3 mixed in (kept as they are) - mode sizes only
     for N in ([1, 4], [2, 8], [3, 4], [4, 1, 2], [8, 3], [16], [2, 2], [1], [32, 2]):
         try:
@@ -190,7 +200,7 @@ def run(tier, seed, replay=None):
               "requested mode sizes, well-formedness, error <= %g*eps*||x|| (+1e-11), phase of the largest entry for complex data, dtype, bitwise operand integrity; the mode sizes "
               "returned by reshape are compared with the Coq model of the loop; for permute the bond of every supercore SVD is recorded (from the calling frame) and the sequence is compared "
               "with the Coq bubble schedule, and every SVD result is checked to be an exact factorisation (1e-12) - the hypothesis of the swap theorem") % CONST,
-        samples=samples, distribution=dist, model_shape_agreements=n_coq, permute_schedules_recorded=n_sched, permute_schedules_matching_model=n_perm_coq, qtt_shapes_matching_model=n_qtt_coq, permute_schedules_with_unreadable_positions=n_sched_blind, known_findings_reproduced=V.known_hit,
+        samples=samples, distribution=dist, model_shape_agreements=n_coq, permute_schedules_recorded=n_sched, permute_schedules_matching_model=n_perm_coq, qtt_shapes_matching_model=n_qtt_coq, operator_reshape_shapes_matching_model=n_op_coq, permute_schedules_with_unreadable_positions=n_sched_blind, known_findings_reproduced=V.known_hit,
         partial=["proved: termination and exact mode sizes of the tensor reshape loop; termination, swap count and final order of permute's schedule; every elementary step (merge, exact split, exact "
                  "swap) preserves all entries. NOT proved: the composition of these steps with the floating-point QR/SVD and the truncation (error <= small multiple of eps) - measured; the "
                  "operator reshape loop and the QTT conversions are covered by measurement only"])
